@@ -619,4 +619,50 @@ int xs_pthread_once(pthread_once_t* c, void (*fn)(void)) {
   return 0;
 }
 void xs_call_once(void* flag, void (*fn)(void)) { xs_pthread_once((pthread_once_t*)flag, fn); }
+
+// ---- thread-specific data.  Keys live in the simulator: glibc would run the destructors while the thread dies, after
+// it has handed the baton on, i.e. outside the scheduler's control; here they run at the end of the task body
+// (task_thread_exit), as one more piece of library code executed by that task.
+struct TsdKey { bool used = false; void (*dtor)(void*) = nullptr; };
+static TsdKey g_keys[32];
+int xs_pthread_key_create(pthread_key_t* key, void (*dtor)(void*)) {
+  sched_visible("key_create");
+  for (unsigned k = 0; k < 32; k++)
+    if (!g_keys[k].used) {
+      g_keys[k].used = true; g_keys[k].dtor = dtor;
+      for (Task* t : T) t->ctx.tsd[k] = nullptr;
+      if (t_task) t_task->tsd[k] = nullptr;
+      *key = (pthread_key_t)k;
+      return 0;
+    }
+  return EAGAIN;
+}
+int xs_pthread_key_delete(pthread_key_t key) { if (key >= 32 || !g_keys[key].used) return EINVAL; g_keys[key].used = false; g_keys[key].dtor = nullptr; return 0; }
+int xs_pthread_setspecific(pthread_key_t key, const void* v) { if (key >= 32 || !g_keys[key].used) return EINVAL; t_task->tsd[key] = (void*)v; return 0; }
+void* xs_pthread_getspecific(pthread_key_t key) { return key < 32 && g_keys[key].used ? t_task->tsd[key] : nullptr; }
+int xs_tss_create(pthread_key_t* key, void (*dtor)(void*)) { return xs_pthread_key_create(key, dtor) == 0 ? 0 /* thrd_success */ : 2 /* thrd_error */; }
+void xs_tss_delete(pthread_key_t key) { xs_pthread_key_delete(key); }
+int xs_tss_set(pthread_key_t key, void* v) { return xs_pthread_setspecific(key, v) == 0 ? 0 : 2; }
+void* xs_tss_get(pthread_key_t key) { return xs_pthread_getspecific(key); }
+}
+namespace xs {
+void tsd_reset() { for (auto& k : g_keys) k = TsdKey(); }
+void task_thread_exit() {
+  TaskCtx* t = t_task;
+  if (!t) return;
+  for (int round = 0; round < 4; round++) {   // PTHREAD_DESTRUCTOR_ITERATIONS
+    bool again = false;
+    for (unsigned k = 0; k < 32; k++) {
+      void* v = t->tsd[k];
+      if (!v || !g_keys[k].used || !g_keys[k].dtor) continue;
+      t->tsd[k] = nullptr;
+      logf("TSD t%d destructor key %u", t->id, k);
+      g_keys[k].dtor(v);
+      again = true;
+    }
+    if (!again) break;
+  }
+}
+}
+extern "C" {
 }
